@@ -527,7 +527,7 @@ class Gen:
         choices = ['mctor', 'mentry', 'asquare', 'acurly']
         if m is not None:
             choices += ['mput', 'mput', 'mremove', 'mget', 'mcontains', 'msize', 'mkeys', 'mforeach', 'mmerge',
-                        'mfind', 'lookup']
+                        'mmerge', 'mfind', 'lookup']
         if a is not None:
             choices += ['aget', 'aput', 'aput', 'ainsert', 'aappend', 'aappend', 'aremove', 'asub', 'ahead',
                         'atail', 'areverse', 'ajoin', 'aflatten', 'asize', 'lookup']
@@ -707,6 +707,8 @@ CORPUS = [
      ('aremove', 3, [1, 1, 3]), ('aremove', 3, [4]), ('ainsert', 3, 4, 1), ('ainsert', 3, 5, 1), ('atail', 3)],
     [('asquare', []), ('ahead', 0), ('atail', 0), ('areverse', 0), ('seq', []), ('ajoin', 4), ('acurly', 4),
      ('aflatten', 0), ('aput', 0, 1, 4), ('ainsert', 0, 1, 4), ('lookup', 0, '*')],
+    # F15i: arrays inside a sequence-valued member are flattened too
+    [('seq', [('i', 1)]), ('acurly', 0), ('seq', [1, 1, 1]), ('ajoin', 2), ('ainsert', 3, 2, 2), ('aflatten', 4)],
     # nesting, flatten, find, for-each, lookup
     [('seq', [('i', 1)]), ('asquare', [0, 0]), ('asquare', [1, 0]), ('mctor', [(('s', 'a'), 2), (('i', 1), 1)]),
      ('asquare', [3, 2]), ('aflatten', 4), ('mfind', 4, ('s', 'a')), ('mfind', 4, ('d', '1.0')), ('mforeach', 3),
@@ -731,6 +733,26 @@ def parse_answer(ans: str):
                 triples.append(tr)
         blocks.append((ms, ss, ok == '1', triples))
     return blocks
+
+
+KIND_NAMES = {'i': 'integer', 'd': 'decimal', 'f': 'double', 's': 'string', 'u': 'anyURI', 'b': 'boolean',
+              't': 'date'}
+
+
+def op_keys(op):
+    if op[0] == 'mctor':
+        return [kk for kk, _ in op[1]]
+    if op[0] in ('mput', 'mget', 'mcontains', 'mfind'):
+        return [op[2]]
+    if op[0] == 'mentry':
+        return [op[1]]
+    if op[0] == 'mremove':
+        return list(op[2])
+    if op[0] == 'lookup' and op[2] != '*':
+        return list(op[2])
+    if op[0] == 'seq':
+        return [a for a in op[1] if not isinstance(a, int)]
+    return []
 
 
 def classify_tags(ops, k):
@@ -777,6 +799,11 @@ def compare(run: Run, cases, count=True) -> None:
                       'history': to_jsonable(ops[:k + 1])}
             if count:
                 st.count('op:' + op[0])
+                for kk in op_keys(op):
+                    st.count('key:' + KIND_NAMES[kk[0]] + (':' + kk[1] if kk[0] == 'f' and kk[1] in ('NaN', 'INF', '-INF', '-0.0') else '')
+                             + (':tz' if kk[0] == 't' and kk[1][3] is not None else ''))
+                if op[0] == 'mmerge':
+                    st.count('merge:' + op[2])
                 st.count('status:' + (istat if istat.startswith('ERR') else 'ok'))
                 if not ok:
                     st.count('clash-step')
@@ -885,7 +912,7 @@ def first_diff(a, b):
 
 def correspond(run: Run) -> None:
     rng = run.rng
-    n = run.scale(2500, 40000)
+    n = run.scale(4000, 40000)
     cases = [list(c) for c in CORPUS]
     for _ in range(n):
         cases.append(Gen(rng, run.quick).build())
